@@ -11,8 +11,9 @@ from ipaddress import ip_address, ip_network
 from select import select
 
 import xfrm
+from configuration import ConfigurationNotFound
 from ikesa import IkeSa
-from message import (Message, TrafficSelector)
+from message import (IkeSaError, Message, TrafficSelector)
 
 __author__ = 'Alejandro Perez-Mendez <alejandro.perez.mendez@gmail.com>'
 
@@ -44,11 +45,19 @@ class IkeSaController:
         return None
 
     def dispatch_message(self, data, my_addr, peer_addr):
-        header = Message.parse(data, header_only=True)
+        try:
+            header = Message.parse(data, header_only=True)
+        except IkeSaError as ex:
+            logging.warning(f'Received a datagram that is not an IKE message: {ex}. Omitting.')
+            return None
         # if IKE_SA_INIT request, then a new IkeSa must be created
         if header.exchange_type == Message.Exchange.IKE_SA_INIT and header.is_request:
             # look for matching configuration
-            ike_conf = self.configuration.get_ike_configuration(ip_address(my_addr), ip_address(peer_addr))
+            try:
+                ike_conf = self.configuration.get_ike_configuration(ip_address(my_addr), ip_address(peer_addr))
+            except ConfigurationNotFound as ex:
+                logging.warning(f'Received IKE_SA_INIT request from an unconfigured peer: {ex}. Omitting.')
+                return None
             ike_sa = IkeSa(is_initiator=False, peer_spi=header.spi_i, configuration=ike_conf,
                            my_addr=ip_address(my_addr), peer_addr=ip_address(peer_addr))
             self.ike_sas.append(ike_sa)
@@ -66,7 +75,14 @@ class IkeSaController:
                 return None
 
         # generate the reply (if any)
-        reply = ike_sa.process_message(data)
+        try:
+            reply = ike_sa.process_message(data)
+        except IkeSaError as ex:
+            # the datagram could not be parsed (malformed, bad checksum): it has not been processed at all
+            logging.warning(f'Could not parse message for IKE SA={ike_sa}: {ex}. Omitting.')
+            if ike_sa.state == IkeSa.State.INITIAL and not ike_sa.is_initiator:
+                self.ike_sas.remove(ike_sa)
+            return None
 
         # if rekeyed, add the new IkeSa (only once: a retransmitted rekey message finds it already there)
         if (ike_sa.state in (IkeSa.State.REKEYED, IkeSa.State.DEL_AFTER_REKEY_IKE_SA_REQ_SENT)
@@ -93,7 +109,11 @@ class IkeSaController:
             ike_sa = self._get_ike_sa_by_peer_addr(peer_addr)
         except StopIteration:
             my_addr = xfrm_acquire.saddr.to_ipaddr(family)
-            ike_conf = self.configuration.get_ike_configuration(my_addr, peer_addr)
+            try:
+                ike_conf = self.configuration.get_ike_configuration(my_addr, peer_addr)
+            except ConfigurationNotFound as ex:
+                logging.warning(f'Received ACQUIRE for an unconfigured peer: {ex}. Omitting.')
+                return None, None, None
             # create new IKE_SA (for now)
             ike_sa = IkeSa(is_initiator=True, peer_spi=b'\0'*8, configuration=ike_conf, my_addr=my_addr,
                            peer_addr=peer_addr)
@@ -197,8 +217,8 @@ class IkeSaController:
                         dst_addr = (str(ikesa.peer_addr), 500)
                         udp_sockets[ikesa.my_addr].sendto(request_data, dst_addr)
 
-            except socket.gaierror as ex:
-                logging.error(f'Problem sending message: {ex}')
+            except OSError as ex:
+                logging.error(f'Problem sending or receiving a message: {ex}')
             except KeyError as ex:
                 logging.error(f'Could not find socket with the appropriate source address: {str(ex)}')
 
